@@ -619,7 +619,9 @@ impl RainDbIterator for DatabaseIterator {
     }
 
     fn current(&self) -> Option<(&Self::Key, &Vec<u8>)> {
-        assert!(self.is_valid);
+        if !self.is_valid {
+            return None;
+        }
 
         match self.direction {
             DbIterationDirection::Forward => {
